@@ -151,7 +151,22 @@ def run(ctx: core.Ctx):
             if g != run_len:
                 ctx.fail("croo", dict(dtype=dt, series=f"1,0,1,1,0 followed by {run_len} ones"), g, run_len,
                          note="croo is the length of the run ending at the latest step, for runs of any length the axis allows")
-    ctx.trusted += ["native model driver (lean_exe of Hdc/Model/Discrete.lean)", "harness/props/c18.py oracle"]
+    # the list-level semantics of the xarray idioms (Hdc/PyXr.lean) that the croo translation targets, against real xarray
+    import subprocess
+    import sys
+    r = subprocess.run([sys.executable, str(core.ROOT / "harness" / "validate_pyxr.py")] + ([] if not ctx.quick else ["--no-lean"]),
+                       capture_output=True, text=True, cwd=str(core.ROOT))
+    out = (r.stdout + r.stderr).strip().splitlines()
+    last = [ln for ln in out if ln.startswith(("ok ", "MISMATCH"))][-1:] or out[-1:]
+    if r.returncode != 0 or not last or not last[0].startswith("ok "):
+        ctx.disagree("T", "PyXr (xarray semantics of the croo pipeline)", dict(script="harness/validate_pyxr.py"),
+                     "Hdc/PyXr.lean combinators", (last or ["no output"])[0][:400],
+                     note="the trusted list-level semantics of sortby / where / cumsum / argmax / isel differ from real xarray")
+    else:
+        ctx.count("PyXr combinators vs xarray (comparisons)", int(last[0].split()[1]))
+    ctx.trusted += ["native model driver (lean_exe of Hdc/Model/Discrete.lean)", "harness/props/c18.py oracle",
+                    "Hdc/PyXr.lean: per-pixel semantics of five xarray idioms (validated against xarray on every run, not proved)",
+                    "harness/py2lean_glue_px.py (croo / lroo accessor translator)"]
 
 
 def search(ctx: core.Ctx):
